@@ -306,6 +306,7 @@ pub fn ls_check(id: &str) -> Option<LsCheck> {
         "C13" => LsCheck {
             id: "C13",
             profile: Profile {
+                defaults_pct: 0,
                 name: "estimator-in-the-cache",
                 cap: Cap::Mixed,
                 ttl_pct: 10,
@@ -333,6 +334,7 @@ pub fn ls_check(id: &str) -> Option<LsCheck> {
         "C14" => LsCheck {
             id: "C14",
             profile: Profile {
+                defaults_pct: 0,
                 name: "doorkeeper-in-the-cache",
                 cap: Cap::Mixed,
                 ttl_pct: 10,
